@@ -380,7 +380,9 @@ def f8(ctx):
             n += 1
             ea, ha = _self_attrs(eq), _self_attrs(hs)
             calls_super = 'super().__hash__()' in src(hs) and 'super().__eq__(' in src(eq)
-            ok = calls_super or (ha <= ea) or all(any(e.startswith(h) or h.startswith(e) for e in ea) for h in ha)
+            # a hashed value must be a compared value or derived from one (`x.items` of a compared `x`);
+            # hashing `x` where only `x.attr` is compared distinguishes objects that compare equal
+            ok = calls_super or (ha <= ea) or all(any(h == e or h.startswith(e + '.') for e in ea) for h in ha)
             ctx.check('%s.%s/eq-hash' % (mname.split('.')[-1], cname), ok,
                       '%s: __hash__ uses %s, all compared by __eq__ (%s)'
                       % (cname, sorted(ha) or 'super()', sorted(ea) or 'super()'),
